@@ -672,6 +672,8 @@ thread_local! {
     /// whether the application being built nests any blueprint under a path prefix: then every
     /// route starts with a static segment (a/b/c) so that it cannot overlap with a prefix region
     static ANY_PREFIXED: std::cell::Cell<bool> = const { std::cell::Cell::new(false) };
+    /// the scope tree being built hangs below a domain guard (its root, depth 1, is the guarded blueprint)
+    static DOMAIN_MODE: std::cell::Cell<bool> = const { std::cell::Cell::new(false) };
 }
 
 fn any_prefixed(sg: &ScopeGene, depth: usize) -> bool {
@@ -823,7 +825,10 @@ pub fn build_routing(g: &RoutingGenome, k: usize) -> AppSpec {
                 };
                 let np = format!("{prefix}{}", p.clone().unwrap_or_default());
                 let mut regs = vec![];
-                let child_anc_ok = if own_prefix { sg.fallback } else { anc_ok }; // (the application's root is itself nested under `/s<k>` in a round)
+                // (the application's root is itself nested under `/s<k>` in a round; a blueprint nested without a
+                // prefix directly below a *guarded* blueprint may have a fallback of its own even when the guarded
+                // blueprint has none: unmatched paths of the domain then get the default fallback)
+                let child_anc_ok = if own_prefix { sg.fallback || (depth == 1 && DOMAIN_MODE.with(|d| d.get())) } else { anc_ok };
                 scope(ch, p.is_some(), child_anc_ok, depth + 1, &np, seg_depth + extra_depth + 4, comps, taken, nest_counter, &mut regs);
                 out.push(Reg::Nest { prefix: p, domain: None, bp: regs });
             }
@@ -848,7 +853,9 @@ pub fn build_routing(g: &RoutingGenome, k: usize) -> AppSpec {
             // each domain has its own path namespace
             let mut taken_d = Default::default();
             let leaf = ScopeGene { routes: sg.routes.clone(), fallback: sg.fallback, prefix_kind: 0, children: if i == 0 { sg.children.iter().take(1).cloned().collect() } else if i % 2 == 1 { sg.children.iter().take(3).cloned().collect() } else { vec![] } };
+            DOMAIN_MODE.with(|d| d.set(true));
             scope(&leaf, true, false, 1, "", 0, &mut comps, &mut taken_d, &mut nest_counter, &mut regs);
+            DOMAIN_MODE.with(|d| d.set(false));
             fn has_handler(regs: &[Reg], comps: &[CompSpec]) -> bool {
                 regs.iter().any(|r| match r {
                     Reg::Comp { idx } => comps[*idx].kind == CompKind::Handler,
